@@ -9,8 +9,9 @@ Definition allowed_escapes : list string :=
 
 Lemma jwt_no_shared_writes :
   forallb (fun g => match g_writes g with [] => true | _ => false end) globals = true /\
-  forallb (fun g => forallb (fun e => existsb (fun a => a =? e) allowed_escapes) (g_escapes g)) globals = true.
-Proof. split; vm_compute; reflexivity. Qed.
+  forallb (fun g => forallb (fun e => existsb (fun a => a =? e) allowed_escapes) (g_escapes g)) globals = true /\
+  foreign_global_writes = [].
+Proof. split; [|split]; vm_compute; reflexivity. Qed.
 
 Lemma readonly_queries_pure : forallb (fun q => negb (snd q)) query_stores = true.
 Proof. vm_compute; reflexivity. Qed.
